@@ -20,6 +20,12 @@ from .extract import Undecided
 from .unit import assemble
 
 ROOT = os.path.dirname(os.path.dirname(os.path.abspath(__file__)))
+
+
+def OUT():
+    """where evidence/ and replays/ are written: /verif, or a scratch directory for the self-test runs of the thorough tier"""
+    return os.environ.get("VERIF_OUT") or ROOT
+
 TRUST_PAT = re.compile(r"\b(assume\s*\(|admit\s*\(|external_body|assume_specification|axiom\b|external_type_specification|exec_allows_no_decreases_clause|uninterp\b|external\b)")
 
 
@@ -351,9 +357,13 @@ def _run(pid, cfg, tier, seed, repo, work, t0):
             o["status"] = "discharged"
 
     mut = None
+    seeded = None
     if tier == "thorough":
         from . import mutants
         mut = mutants.run(pid, repo, work)
+        seeded = None
+        if not os.environ.get("VERIF_OUT"):      # (not inside a self-test run)
+            seeded = mutants.run_seeded(pid, repo, work)
     wall = time.time() - t0
     ev = dict(
         property_id=pid, tier=tier, seed=seed, level="proof",
@@ -372,6 +382,7 @@ def _run(pid, cfg, tier, seed, repo, work, t0):
             undecided=undecided,
             extraction_notes=["%s: %s" % (u["name"], n) for u in units if u["asm"] is not None for n in u["asm"].notes],
             detection_selftest=mut if mut is not None else "thorough tier only",
+            seeded_selftest=(seeded if tier == "thorough" else "thorough tier only"),
             exhaustive=False,
             explanation="obligations = labelled contract clauses (postconditions, loop invariants) of the real functions listed, one safety obligation per function (overflow, bounds, callee preconditions, asserts), Kani harnesses, and the supporting lemmas; discharged by the back end named per obligation on /repo's current working tree",
         ),
@@ -407,8 +418,8 @@ def _run(pid, cfg, tier, seed, repo, work, t0):
                 if any(k.get("obligation") == key for k in known_open):
                     continue
                 sweep["failures"] += 1
-                os.makedirs(os.path.join(ROOT, "replays"), exist_ok=True)
-                path = os.path.join(ROOT, "replays", "%s-sweep.json" % pid)
+                os.makedirs(os.path.join(OUT(), "replays"), exist_ok=True)
+                path = os.path.join(OUT(), "replays", "%s-sweep.json" % pid)
                 with open(path, "w") as fo:
                     json.dump(dict(property=pid, lane="oracle sweep (thorough tier)", seed=s_, tree=repo, failed_obligation=key, counterexample=x,
                                    replay=dict(kind="oracle-test", groups=cfg["replay"], test=x.get("test"), seed=s_)), fo, indent=1)
@@ -444,8 +455,8 @@ def _run(pid, cfg, tier, seed, repo, work, t0):
                     if not any(l.startswith("KNOWN-FINDING") and kf[0].get("what", "")[:40] in l for l in lines):
                         lines.append("KNOWN-FINDING: property=%s %s" % (pid, kf[0].get("what", key)))
                 else:
-                    os.makedirs(os.path.join(ROOT, "replays"), exist_ok=True)
-                    path = os.path.join(ROOT, "replays", "%s-probe.json" % pid)
+                    os.makedirs(os.path.join(OUT(), "replays"), exist_ok=True)
+                    path = os.path.join(OUT(), "replays", "%s-probe.json" % pid)
                     with open(path, "w") as fo:
                         json.dump(dict(property=pid, lane="oracle probe", seed=seed, tree=repo, failed_obligation=key, counterexample=x,
                                        replay=dict(kind="oracle-test", groups=[grp], test=test, seed=seed)), fo, indent=1)
@@ -475,8 +486,8 @@ def _run(pid, cfg, tier, seed, repo, work, t0):
                 continue
             if any(k.get("obligation") == key and k.get("status") == "open" for k in load_known()):
                 continue    # a recorded open finding of another property (its own check reports it)
-            os.makedirs(os.path.join(ROOT, "replays"), exist_ok=True)
-            path = os.path.join(ROOT, "replays", "%s-%d.json" % (pid, n))
+            os.makedirs(os.path.join(OUT(), "replays"), exist_ok=True)
+            path = os.path.join(OUT(), "replays", "%s-%d.json" % (pid, n))
             with open(path, "w") as fo:
                 json.dump(dict(property=pid, lane="oracle (bounded stand-in; the verifier was undecided)", seed=seed, tree=repo,
                                failed_obligation="oracle:%s" % x.get("clause"), function=x.get("function"), counterexample=x,
@@ -494,8 +505,8 @@ def _run(pid, cfg, tier, seed, repo, work, t0):
                 json.dump(dict(obligations=sorted("%s/%s" % (o[0], o[1].split(":", 1)[-1]) for o in u["asm"].obligations())), fo, indent=1)
     wall = time.time() - t0
     ev["wall_s"] = round(wall, 2)
-    os.makedirs(os.path.join(ROOT, "evidence"), exist_ok=True)
-    with open(os.path.join(ROOT, "evidence", pid + ".json"), "w") as fo:
+    os.makedirs(os.path.join(OUT(), "evidence"), exist_ok=True)
+    with open(os.path.join(OUT(), "evidence", pid + ".json"), "w") as fo:
         json.dump(ev, fo, indent=1, default=str)
     for l in lines:
         print(l)
